@@ -31,6 +31,7 @@ class Traj:
         self.segs = []                             # (cfl, dtlocal) per step
         self.finite = is_finite_field(self.q)
         self.params = None
+        self.broken = False
 
     def _rebase(self, f):
         g = deep_field_copy(f)
@@ -47,7 +48,7 @@ class Traj:
 
     def advance(self, n, cfl, dtlocal):
         """Make sure at least n steps exist (all with this cfl / directive)."""
-        while len(self.states) - 1 < n:
+        while len(self.states) - 1 < n and not self.broken:
             k = len(self.states) - 1
             self.clones[k] = self._clone_integ()
             dt = self.disc.calc_timestep(self.q, cfl)
@@ -104,6 +105,7 @@ class Traj:
         t.clones = {}
         t.segs = list(self.segs[:n])
         t.params = None
+        t.broken = False
         t.finite = all(is_finite_field(s) for s in t.states)
         return t
 
